@@ -78,7 +78,7 @@ def call(px, st, name, t, args, fid, fn):
     if n.endswith('<I as std::iter::IntoIterator>::into_iter'):
         return [(st, args[0])]
     if n.endswith('std::convert::AsRef::as_ref') or n.endswith('std::borrow::Borrow::borrow'):
-        return [(st, pure(n.split('::')[-1], args))]
+        return [(st, pure(n.split('::')[-1], px.snap_args(st, args)))]
     if n.endswith('as std::ops::Deref>::deref'):
         return [(st, pure('deref', args))]
     if n.endswith('as std::clone::Clone>::clone') or n.endswith('::clone::Clone::clone'):
@@ -362,7 +362,7 @@ def call(px, st, name, t, args, fid, fn):
         if n.endswith('::binary_search') or n.endswith('::binary_search_by_key') or n.endswith('::binary_search_by'):
             snap = tuple(px.deref_value(st, a) if a[0] in ('ref', 'cref') else a for a in args)
             return [(st, ('call', n, tuple(args), st.uid(), snap))]
-        return [(st, pure(n, args))]
+        return [(st, pure(n, px.snap_args(st, args)))]
     if FMT_RE.search(n):
         return [(st, ('call', n, tuple(args), st.uid()))]
     if MUTATOR_RE.search(n):
